@@ -341,6 +341,10 @@ func c19Receipt(t *rapid.T, v2 bool) *Receipt {
 	r := NewReceipt(addr, status, rapid.SampledFrom([]string{"", `"ok"`, `{"a":1}`, "error: x"}).Draw(t, "ret"))
 	r.TxHash = c19Bytes(t, "txhash", 32, 32)
 	r.FeeUsed = c19Bytes(t, "feeused", 0, 9)
+	if rapid.IntRange(0, 4).Draw(t, "withCumulativeFee") == 0 {
+		// the stored form has a length-prefixed field for it (the node leaves it empty today)
+		r.CumulativeFeeUsed = c19Bytes(t, "cumfee", 1, 9)
+	}
 	if v2 {
 		r.GasUsed = rapid.Uint64().Draw(t, "gasused")
 		r.FeeDelegation = rapid.Bool().Draw(t, "feedeleg")
@@ -389,7 +393,7 @@ func c19Assemble(list []*Receipt, v2 bool) *Receipts {
 
 func c19CloneReceipt(r *Receipt) *Receipt {
 	c := &Receipt{ContractAddress: append([]byte{}, r.ContractAddress...), Status: r.Status, Ret: r.Ret, TxHash: append([]byte{}, r.TxHash...),
-		FeeUsed: append([]byte{}, r.FeeUsed...), GasUsed: r.GasUsed, FeeDelegation: r.FeeDelegation, Bloom: append([]byte{}, r.Bloom...)}
+		FeeUsed: append([]byte{}, r.FeeUsed...), CumulativeFeeUsed: append([]byte{}, r.CumulativeFeeUsed...), GasUsed: r.GasUsed, FeeDelegation: r.FeeDelegation, Bloom: append([]byte{}, r.Bloom...)}
 	for _, e := range r.Events {
 		c.Events = append(c.Events, &Event{ContractAddress: append([]byte{}, e.ContractAddress...), EventName: e.EventName, JsonArgs: e.JsonArgs,
 			EventIdx: e.EventIdx, TxHash: append([]byte{}, e.TxHash...)})
@@ -475,6 +479,9 @@ func c19ReceiptEq(a, b *Receipt, v2 bool) string {
 	}
 	if !bytes.Equal(a.FeeUsed, b.FeeUsed) {
 		return "FeeUsed"
+	}
+	if !bytes.Equal(a.CumulativeFeeUsed, b.CumulativeFeeUsed) {
+		return "CumulativeFeeUsed"
 	}
 	if v2 && (a.GasUsed != b.GasUsed || a.FeeDelegation != b.FeeDelegation) {
 		return "GasUsed/FeeDelegation"
@@ -614,12 +621,18 @@ func TestC19ChainID(t *testing.T) {
 	rec := ev.New("C19", "chainid-genesis")
 	defer rec.Flush()
 	rapid.Check(t, func(t *rapid.T) {
-		noSlash := rapid.StringMatching(`[a-zA-Z0-9._\-]{0,12}`)
+		// the magic is free text of the genesis file (the separator of the encoding, '/', included); whatever Bytes
+		// agrees to write must read back
+		magic := rapid.StringMatching(`[a-zA-Z0-9._\-/]{0,12}`)
 		cid := ChainID{Version: int32(rapid.IntRange(0, 1<<20).Draw(t, "version")), PublicNet: rapid.Bool().Draw(t, "public"), MainNet: rapid.Bool().Draw(t, "mainnet"),
-			Magic: noSlash.Draw(t, "magic"), Consensus: rapid.SampledFrom([]string{"dpos", "raft", "sbp", ""}).Draw(t, "consensus")}
+			Magic: magic.Draw(t, "magic"), Consensus: rapid.SampledFrom([]string{"dpos", "raft", "sbp", ""}).Draw(t, "consensus")}
 		b, err := cid.Bytes()
 		if err != nil {
-			t.Fatalf("Bytes: %v", err)
+			if !strings.Contains(cid.Magic, "/") {
+				t.Fatalf("Bytes: %v", err)
+			}
+			rec.Case("refused-to-write", fmt.Sprintf("%+v", cid), false, nil)
+			return
 		}
 		var back ChainID
 		if err := back.Read(b); err != nil {
